@@ -40,6 +40,8 @@ type c19Outcome struct {
 	Clients   int                 `json:"clients"`
 	Balances  map[string]string   `json:"balances"`
 	PreBal    map[string]string   `json:"pre_balances"`
+	Cons      map[string]string   `json:"conservation"`     // token-conservation measures after the block under test
+	PreCons   map[string]string   `json:"pre_conservation"` // ... and before it
 	LaterErr  string              `json:"later_err"`
 	Consumers []string            `json:"consumers"`
 }
@@ -75,6 +77,40 @@ func (w *World) c19Balances() map[string]string {
 	return out
 }
 
+// c19Conservation returns two quantities that no reward allocation - successful, failed or partly failed - may change:
+// what the rewards pool holds beyond the consumers' credits, and what the distribution module holds beyond what it owes
+// (validators' outstanding rewards plus the community pool).
+func (w *World) c19Conservation() map[string]string {
+	ctx := w.P.Ctx()
+	bk := w.P.PApp.BankKeeper
+	dk := w.P.PApp.DistrKeeper
+	sub := func(a, b sdk.DecCoins) string {
+		d, neg := a.SafeSub(b)
+		return fmt.Sprintf("%s negative=%v", d.String(), neg)
+	}
+	pool := sdk.NewDecCoinsFromCoins(bk.GetAllBalances(ctx, authtypes.NewModuleAddress(providertypes.ConsumerRewardsPool))...)
+	credits := sdk.DecCoins{}
+	for k, v := range snapStore(ctx, w.P.PApp.GetKey(providertypes.StoreKey)) {
+		if k[0] != 55 {
+			continue
+		}
+		var a providertypes.ConsumerRewardsAllocation
+		if a.Unmarshal(v) == nil {
+			credits = credits.Add(a.Rewards...)
+		}
+	}
+	distr := sdk.NewDecCoinsFromCoins(bk.GetAllBalances(ctx, authtypes.NewModuleAddress(distrtypes.ModuleName))...)
+	owed := sdk.DecCoins{}
+	if fp, err := dk.FeePool.Get(ctx); err == nil {
+		owed = owed.Add(fp.CommunityPool...)
+	}
+	dk.IterateValidatorOutstandingRewards(ctx, func(_ sdk.ValAddress, r distrtypes.ValidatorOutstandingRewards) bool {
+		owed = owed.Add(r.Rewards...)
+		return false
+	})
+	return map[string]string{"pool-minus-credits": sub(pool, credits), "distribution-minus-owed": sub(distr, owed)}
+}
+
 func (w *World) clientCount() int {
 	n := 0
 	w.P.PApp.IBCKeeper.ClientKeeper.IterateClientStates(w.P.Ctx(), nil, func(string, ibcexported.ClientState) bool { n++; return false })
@@ -82,6 +118,7 @@ func (w *World) clientCount() int {
 }
 
 const RewardDenom = "ibc/27394FB092D2ECCD56123C74F36E4C1F926001CEADA9CA97EA622B25F41E5EB2"
+const RewardDenom2 = "ibc/C4CFF46FD6DE35CA4CF4CE031E643C8FDC9BA4B99AE598E9B0ED98FE3A2319F9"
 
 // runC19Scenario executes one deterministic scenario; the block under test is executed with an error injected
 // into its injectAt-th in-scope boundary call (injectAt < 0: fault-free baseline).
@@ -109,6 +146,7 @@ func runC19Scenario(t testing.TB, seed int64, scenario string, variant, injectAt
 	under := func(scope string, specs []TxSpec) {
 		pre, preKeys := w.consumerKeyDigests()
 		out.Pre, out.PreKeys, out.PreBal = pre, preKeys, w.c19Balances()
+		out.PreCons = w.c19Conservation()
 		w.Calls.Scope = scope
 		w.Calls.Armed = injectAt >= 0
 		w.Calls.InjectAt = injectAt
@@ -126,6 +164,7 @@ func runC19Scenario(t testing.TB, seed int64, scenario string, variant, injectAt
 		}
 		out.Post, out.PostKeys = w.consumerKeyDigests()
 		out.Balances = w.c19Balances()
+		out.Cons = w.c19Conservation()
 		out.Clients = w.clientCount()
 		out.Phases = map[string]string{}
 		for _, id := range w.P.PApp.ProviderKeeper.GetAllConsumerIds(w.P.Ctx()) {
@@ -138,7 +177,7 @@ func runC19Scenario(t testing.TB, seed int64, scenario string, variant, injectAt
 		for i := 0; i < nCons; i++ {
 			msg := MsgCreateConsumer(owner, fmt.Sprintf("f%d", i), DefaultInitParams(spawn, w.Cfg.ConsumerUnbonding), nil, nil)
 			if allow {
-				msg.AllowlistedRewardDenoms = &providertypes.AllowlistedRewardDenoms{Denoms: []string{RewardDenom}}
+				msg.AllowlistedRewardDenoms = &providertypes.AllowlistedRewardDenoms{Denoms: []string{RewardDenom, RewardDenom2}}
 			}
 			ids = append(ids, func() string {
 				o := w.soloOK(TxSpec{Signer: owner, Msgs: []sdk.Msg{msg}, Tag: "create-consumer"})
@@ -207,7 +246,7 @@ func runC19Scenario(t testing.TB, seed int64, scenario string, variant, injectAt
 		// validators become eligible after some epochs; the last consumer is credited while nobody is eligible yet (zero-power branch)
 		quiet(int(w.Cfg.EpochsToRewards*cfg.BlocksPerEpoch) + 2)
 		late := MsgCreateConsumer(owner, "flate", DefaultInitParams(w.Now.Add(30*time.Second), w.Cfg.ConsumerUnbonding), nil, nil)
-		late.AllowlistedRewardDenoms = &providertypes.AllowlistedRewardDenoms{Denoms: []string{RewardDenom}}
+		late.AllowlistedRewardDenoms = &providertypes.AllowlistedRewardDenoms{Denoms: []string{RewardDenom, RewardDenom2}}
 		o := w.soloOK(TxSpec{Signer: owner, Msgs: []sdk.Msg{late}, Tag: "create-consumer"})
 		lateID := eventAttr(o.Result.Events, providertypes.EventTypeCreateConsumer, providertypes.AttributeConsumerId)
 		var specs []TxSpec
@@ -228,14 +267,18 @@ func runC19Scenario(t testing.TB, seed int64, scenario string, variant, injectAt
 			amts[i] = int64(1_000_003 + 77_777*i)
 			total += amts[i]
 		}
-		send := banktypes.NewMsgSend(w.Accts["faucet"].Addr, pool, sdk.NewCoins(sdk.NewCoin(RewardDenom, math.NewInt(total+int64(len(out.Consumers))))))
+		// every consumer is credited in two denoms (several consumers share each denom)
+		extra := int64(len(out.Consumers))
+		send := banktypes.NewMsgSend(w.Accts["faucet"].Addr, pool, sdk.NewCoins(sdk.NewCoin(RewardDenom, math.NewInt(total+extra)), sdk.NewCoin(RewardDenom2, math.NewInt(2*total+extra))))
 		w.Tick()
 		w.ProviderStep([]TxSpec{{Signer: w.Accts["faucet"], Msgs: []sdk.Msg{send}, Tag: "fund-pool"}}, true, nil)
 		wctx := w.P.WriteCtx()
 		for i, id := range out.Consumers {
-			alloc := providertypes.ConsumerRewardsAllocation{Rewards: sdk.NewDecCoins(sdk.NewDecCoinFromDec(RewardDenom, math.LegacyNewDec(amts[i]).Add(math.LegacyNewDecWithPrec(5, 1))))}
-			if err := w.P.PApp.ProviderKeeper.SetConsumerRewardsAllocationByDenom(wctx, id, RewardDenom, alloc); err != nil {
-				panic(err)
+			for j, denom := range []string{RewardDenom, RewardDenom2} {
+				alloc := providertypes.ConsumerRewardsAllocation{Rewards: sdk.NewDecCoins(sdk.NewDecCoinFromDec(denom, math.LegacyNewDec(amts[i]*int64(j+1)).Add(math.LegacyNewDecWithPrec(5, 1))))}
+				if err := w.P.PApp.ProviderKeeper.SetConsumerRewardsAllocationByDenom(wctx, id, denom, alloc); err != nil {
+					panic(err)
+				}
 			}
 		}
 		// the allocation happens in the BeginBlock of the next block: that is the block under test
@@ -396,6 +439,12 @@ func TestC19Faults(t *testing.T) {
 				agg.Violation("C19", "fault-free-block-failed:"+scenario, map[string]any{"error": base.BlockErr + base.LaterErr})
 				continue
 			}
+			for what, pre := range base.PreCons {
+				agg.Eval("C19")
+				if base.Cons[what] != pre {
+					agg.Violation("C19", fmt.Sprintf("tokens-created-or-lost-in-fault-free-block:%s:%s", what, scenario), map[string]any{"before": pre, "after": base.Cons[what], "variant": variant})
+				}
+			}
 			n := len(base.Calls)
 			agg.Event("C19", "blocks-enumerated-exhaustively")
 			agg.EventN("C19", "call-sites:"+scenario, int64(n))
@@ -452,6 +501,13 @@ func judgeC19(w *World, base, o *c19Outcome, variant int) {
 		w.Violation("C19", "chain-halted-after-injected-fault:"+tag, det(map[string]any{"error": o.LaterErr}))
 		return
 	}
+	// token conservation across the block under test, whatever failed
+	for what, pre := range o.PreCons {
+		w.Eval("C19")
+		if o.Cons[what] != pre {
+			w.Violation("C19", fmt.Sprintf("tokens-created-or-lost-under-injected-fault:%s:%s", what, tag), det(map[string]any{"before": pre, "after": o.Cons[what]}))
+		}
+	}
 	// which consumer's result differs from the fault-free run? (light-client ids shift when an earlier launch fails:
 	// the client binding itself - prefixes 7 and 53 - is compared by presence, not by id)
 	var differ []string
@@ -504,6 +560,25 @@ func judgeC19(w *World, base, o *c19Outcome, variant int) {
 	diffs := keyDiffPrefixes(o.PreKeys[hit], o.PostKeys[hit])
 	if o.Scenario == "send" {
 		diffs = keyDiffPrefixes(base.PostKeys[hit], o.PostKeys[hit])
+	}
+	if o.Scenario == "rewards" {
+		// the unit that fails is one (consumer, denom) payout: every key of the hit consumer is either as before the block
+		// (the failed payout) or as in the fault-free run (its other denoms)
+		diffs = nil
+		pre, good := map[string]bool{}, map[string]bool{}
+		for _, x := range o.PreKeys[hit] {
+			pre[x] = true
+		}
+		for _, x := range base.PostKeys[hit] {
+			good[x] = true
+		}
+		set := map[string]bool{}
+		for _, x := range o.PostKeys[hit] {
+			if !pre[x] && !good[x] {
+				set[x[:indexByte(x, ':')]] = true
+			}
+		}
+		diffs = keysOf(set)
 	}
 	for _, p := range diffs {
 		if !c19Allowed[o.Scenario][p] {
